@@ -16,7 +16,8 @@ RULE = ('bounded family: every sequence of <= L server steps over a 17-token '
 SHRINK_LISTS = [('tokens',), ('faults',)]
 EXPECTED_PROBES = ['ended_by_timer_only', 'reached_ready', 'reached_rejected', 'reached_protocol_error',
                    'reached_unresponsive', 'reached_closed', 'connect_fail',
-                   'nongraceful', 'graceful']
+                   'nongraceful', 'graceful', 'non_ascii_request',
+                   'read_filled_buffer_exactly']
 
 TOKENS = ['good101', 'bad_accept', 'http200', 'garbage', 'bighdr', 'text',
           'frag', 'cont', 'ping', 'pong', 'close', 'invalid', 'badutf8',
@@ -37,6 +38,8 @@ FAULTS = [None,
           {'op': 'poll', 'k': 3, 'kind': 'exc'}]
 
 NT, NA, NF = len(TOKENS), len(APPS), len(FAULTS)
+# what the request is made of (characters outside ASCII / Latin-1)
+REQS = [None, None, None, 'path', 'query', 'agent', 'proto', 'all']
 
 
 def _nseq(L):
@@ -85,14 +88,16 @@ def make_case(family, i, rng, tier):
         # the server completes the handshake, then keeps the connection open
         # and stays silent for ever: only a timer can end the iteration
         mid = rng.choices(['text', 'frag', 'cont', 'ping', 'pong', 'close',
-                           'invalid', 'silence_short', 'silence_long'],
-                          [4, 2, 2, 3, 2, 1, 0.3, 2, 1],
+                           'invalid', 'silence_short', 'silence_long',
+                           'fullread', 'fullread2'],
+                          [4, 2, 2, 3, 2, 1, 0.3, 2, 1, 2, 1],
                           k=rng.choice([0, 0, 1, 2, 5]))
         case = {'tokens': ['good101'] + mid + ['hold'], 'faults': [],
                 'epoch': rng.choice([0, 1.7e9]),
                 'pongs': rng.choice([0, 0, 1, 3]),
                 'poll': rng.choice([5, 1, 0.25]),
-                'ping_rate': rng.choice([30, 0, 4])}
+                'ping_rate': rng.choice([30, 0, 4]),
+                'req': rng.choice(REQS)}
         if rng.random() < 0.5:
             case['ping_timeout'] = rng.choice([7, 20])
             case['close_timeout'] = rng.choice([30, None, 0, 3])
@@ -109,7 +114,7 @@ def make_case(family, i, rng, tier):
                'pong': 2, 'close': 1, 'invalid': 0.3, 'badutf8': 0.3,
                'silence_short': 2, 'silence_long': 0.5, 'eof': 0.3,
                'rst': 0.3, 'bad_accept': 0.2, 'http200': 0.2, 'garbage': 0.2,
-               'bighdr': 0.1}
+               'bighdr': 0.1, 'fullread': 0.5, 'fullread2': 0.2}
     toks = ['good101'] if rng.random() < 0.85 else []
     names = list(weights)
     ws = [weights[k] for k in names]
@@ -126,7 +131,8 @@ def make_case(family, i, rng, tier):
             'close_timeout': rng.choice([30, None, 0, 3]),
             'ping_rate': rng.choice([30, 0, 4]),
             'poll': rng.choice([5, 1, 0.25]),
-            'cuts': rng.random() < 0.5, 'cut_seed': rng.getrandbits(32)}
+            'cuts': rng.random() < 0.5, 'cut_seed': rng.getrandbits(32),
+            'req': rng.choice(REQS)}
 
 
 def _compile_tokens(tokens):
@@ -160,6 +166,15 @@ def _compile_tokens(tokens):
             steps.append(S.send(peer.enc_frame(3, b'x')))
         elif t == 'badutf8':
             steps.append(S.send(peer.enc_frame(1, b'\xff\xfe')))
+        elif t in ('fullread', 'fullread2'):
+            # after a pause (nothing buffered) exactly N * 65536 bytes become
+            # readable at once: every read fills the receive buffer exactly
+            if t == 'fullread':
+                fr = peer.enc_frame(2, b'\x5a' * (65536 - 4))
+            else:
+                fr = peer.enc_frame(2, b'\xa5' * (131072 - 10))
+            assert len(fr) % 65536 == 0
+            steps.append(S.send(fr, after=50001))
         elif t == 'silence_short':
             steps.append({'op': 'send', 'hex': '', 'after': 6000000})
         elif t == 'silence_long':
@@ -223,8 +238,20 @@ def build(case):
         conn['short_reads'] = {'*': 1 + case.get('cut_seed', 0) % 7}
     if case.get('pongs'):
         conn['react'] = {'pong': {'delay': 1000, 'limit': case['pongs']}}
+    url = 'ws://example.test/'
+    ws = {}
+    req = case.get('req')
+    if req in ('path', 'all'):
+        url += u'\u4e2d\u6587/\u0416'
+    if req in ('query', 'all'):
+        url += u'?q=\u20ac&r=\U0001F600'
+    if req in ('agent', 'all'):
+        ws['agent'] = u'Agent/\u03a9 \u20ac'
+    if req in ('proto', 'all'):
+        ws['protocols'] = [u'chat', u'\u0447\u0430\u0442']
     return {
-        'url': 'ws://example.test/',
+        'url': url,
+        'ws': ws,
         'epoch': case.get('epoch', 0),
         'connect': {'poll': case.get('poll', 5),
                     'ping_rate': case.get('ping_rate', 30),
@@ -260,6 +287,11 @@ def execute(case):
     for e in tr.events:
         if e.name == 'disconnected':
             res.stats['probe:graceful' if e.snap[1] else 'probe:nongraceful'] += 1
+    if case.get('req'):
+        res.stats['probe:non_ascii_request'] += 1
+    if any(t.startswith('fullread') for t in case['tokens']) and \
+            'binary' in names:
+        res.stats['probe:read_filled_buffer_exactly'] += 1
     if case['tokens'] and case['tokens'][-1] == 'hold' and tr.finished:
         res.stats['probe:ended_by_timer_only'] += 1
     res.nontrivial = len(names) > 1
